@@ -83,6 +83,14 @@ def resolve_rule(ctx):
     emits = [i for i in gl.calls("emplace_back", "push_back") if gl.text(gl.nodes[i].get("recv", -1)) == "ret"]
     ctx.counters["glob_emit_sites"] = len(emits)
     ctx.floor("glob_emit_sites", 1, "result emission in Fs::glob")
+    # a result that fails its re-check (it vanished, or is no directory) is passed over: the walk over glob(3)'s results has no exit of
+    # its own.  resolveWildcard turns a glob error into "no cgroup matches", and Ruleset::runOnce drops every instance that is not in
+    # this tick's list - one cgroup removed at the wrong moment would cost all its siblings their windows, pauses and suspended chains.
+    gll = [l for l in loops(gl) if l["stmt"] is not None and any(gl.pos_of(i) is not None and (gl.pos_of(i)[0] in l["body"] or l["stmt"] in list(gl.ancestors(i))) for i in emits)]
+    if len(gll) == 1:
+        no_early_exit(ctx, gl, gll[0], "glob:a-failed-recheck-skips-one-entry", "glob(3)'s results")
+    else:
+        ctx.broken("glob:a-failed-recheck-skips-one-entry", "anchor", gl.loc(), "expected one loop over the glob results holding the emission")
     for i in emits:
         arg = gl.text(gl.strip(gl.nodes[i]["args"][0])) if gl.nodes[i].get("args") else "?"
         arg = re.sub(r"^std::move\((.*)\)$", r"\1", arg)
@@ -91,7 +99,11 @@ def resolve_rule(ctx):
             conds = set(st_.conds)
             if ("dir_only", False) in conds:
                 continue
-            if not any(p is True and re.match(r"^(Oomd::Fs::)?isDir\(%s\)$" % re.escape(arg), k) for k, p in conds):
+            confirmed = any(p is True and re.match(r"^(Oomd::Fs::)?isDir\(%s\)$" % re.escape(arg), k) for k, p in conds)
+            # isDir() written out: a stat of that path succeeded and (st_mode & S_IFMT) == S_IFDIR
+            inl = any(p is True and re.match(r"^\(\(\w+\.st_mode & 61440\) == 16384\)$|^\(16384 == \(\w+\.st_mode & 61440\)\)$", k) for k, p in conds if isinstance(k, str)) and \
+                any(isinstance(k, str) and re.search(r"\bl?stat\(%s(\.c_str\(\))?, " % re.escape(arg), k) and ((p is False and "-1 ==" in k) or (p is True and "0 ==" in k)) for k, p in conds)
+            if not (confirmed or inl):
                 bad.append(sorted(conds, key=str))
         ctx.check(not bad and fgl.at(i), "glob:dir-only-results-are-directories", "guarded_by (split on dir_only)", gl.loc(i),
                   "with dir_only every emitted path passed isDir()", "with dir_only a path can be emitted without the isDir() confirmation (GLOB_ONLYDIR is only a hint: "
@@ -135,7 +147,55 @@ def resolve_rule(ctx):
               "candidates are glob(absolutePath(), dir_only=true)", "candidates are " + (X(rw.nodes[lp[0]["stmt"]]["range"]) if lp else "?"))
 
 
+def split_pieces_are_the_text_between_delimiters(ctx):
+    """'Only empty, duplicate, leading and trailing slashes are ignored': a piece Util::split emits is exactly the text between two
+    delimiters (or the ends of the input).  The positions handed to the emitting code are used as they are - not re-assigned - and
+    nothing in split looks at a character other than to compare it with the delimiter (no trimming, no character classes).  Cgroup
+    names may begin or end with blanks; CgroupPath builds its components with split(text, '/')."""
+    P, cg = ctx.prog, ctx.cg
+    sp = ctx.use(ctx.fn1("Oomd::Util::split"))
+    if len(sp.params) != 2:
+        ctx.broken("split-pieces-are-the-text-between-delimiters", "anchor", sp.loc(), "Util::split no longer takes (text, delimiter)")
+        return
+    scope_ = [sp] + list(P.lambdas_in(sp))
+    CLASSY = ("find_first_not_of", "find_last_not_of", "find_first_of", "find_last_of", "isspace", "isblank", "isalnum", "isprint", "isgraph", "ispunct",
+              "trim", "ltrim", "rtrim", "remove_if", "erase_if", "regex_replace")
+    n_emit = 0
+    for g in scope_:
+        ctx.use(g)
+        for i in g.calls(*CLASSY):
+            ctx.violation("split-pieces-are-the-text-between-delimiters:%s@%d" % (g.nodes[i].get("cname"), g.nodes[i].get("line", 0)), "who-may-call (character classes in split)", g.loc(i),
+                          "Util::split calls %s: a piece is no longer the text between two delimiters (characters are dropped or skipped by class), so "
+                          "CgroupPath(\"a/ b\") and CgroupPath(\"a/b\") become the same path and a component made of blanks disappears" % g.text(i)[:70])
+        for i in g.calls("emplace_back", "push_back"):
+            if "recv" not in g.nodes[i] or g.text(g.nodes[i]["recv"]) not in ("ret",):
+                continue
+            n_emit += 1
+            ends = [re.sub(r"^\(?\w+\.c?begin\(\) \+ (\w+)\)?$", r"\1", g.text(x)) for x in g.nodes[i].get("args", [])][:2]
+            if len(ends) != 2 or not all(re.match(r"^\w+$", e_) for e_ in ends):
+                # another spelling (substr, a string_view slice) is not followed
+                ctx.broken("split-pieces-are-the-text-between-delimiters:emit@%d" % g.nodes[i].get("line", 0), "anchor", g.loc(i),
+                           "cannot read the emitted piece as [begin + a, begin + b): " + g.text(i)[:70])
+                continue
+            for e_ in ends:
+                pr = [p_ for p_ in g.params if p_["name"] == e_]
+                if pr:
+                    w_ = local_writes(g, e_, must=False)
+                    ctx.check(not w_, "split-pieces-are-the-text-between-delimiters:%s-as-given@%d" % (e_, g.nodes[i].get("line", 0)), "no-write (parameter)", g.loc(w_[0]) if w_ else g.loc(i),
+                              "the emitted piece ends at the position the caller found (%s)" % e_,
+                              "the emitting code of Util::split moves its boundary '%s' before emitting: the piece is shorter than the text between the delimiters" % e_)
+    ctx.counters["split_emit_sites"] = n_emit
+    ctx.floor("split_emit_sites", 1, "emission sites in Util::split")
+    # the delimiter test itself: some comparison of a character of the input with the parameter
+    dn = sp.params[1]["name"]
+    cmp_ = [i for g in scope_ for i, n in enumerate(g.nodes) if n["k"] == "bin" and n.get("op") in ("==", "!=") and re.search(r"\b%s\b" % re.escape(dn), g.text(i))]
+    finds = [i for g in scope_ for i in g.calls("find") if re.search(r"\b%s\b" % re.escape(dn), g.text(i))]
+    ctx.check(bool(cmp_) or bool(finds), "split-pieces-are-the-text-between-delimiters:delimiter-test", "value-shape", sp.loc(),
+              "the input is cut where a character equals the delimiter parameter", "no comparison with the delimiter parameter found in Util::split")
+
+
 def run(ctx):
+    split_pieces_are_the_text_between_delimiters(ctx)
     P, cg = ctx.prog, ctx.cg
     from .C07 import can_run_is_the_pattern_loop
     can_run_is_the_pattern_loop(ctx)
